@@ -31,6 +31,8 @@ type c13case struct {
 	f     uint
 	diff  *big.Int
 	three bool
+	// tbl: the squares table to use for a three-squares case (nil: the common 4096-entry table)
+	tbl *rangeproof.SquaresTable
 }
 
 // c13Extreme: true statements proved while single reads of crypto/rand.Reader return all ones / all zeros.
@@ -93,11 +95,11 @@ func runC13(r *mon.Run) {
 	for d := int64(0); d <= 300; d++ {
 		for _, s := range []int{1, -1} {
 			f := uint(1 + (d+int64(s)+1)%8)
-			cases = append(cases, c13case{s, f, bi(d), false})
+			cases = append(cases, c13case{s, f, bi(d), false, nil})
 			if d <= 40 {
 				for ff := uint(1); ff <= 8; ff++ {
 					if ff != f {
-						cases = append(cases, c13case{s, ff, bi(d), false})
+						cases = append(cases, c13case{s, ff, bi(d), false, nil})
 					}
 				}
 			}
@@ -111,14 +113,14 @@ func runC13(r *mon.Run) {
 	for k := uint(2); k <= 255; k += uint(step) {
 		for _, dlt := range []int64{-1, 0, 1} {
 			v := add(pow2(k), bi(dlt))
-			cases = append(cases, c13case{1 - 2*int(k%2), uint(1 + k%8), v, false})
+			cases = append(cases, c13case{1 - 2*int(k%2), uint(1 + k%8), v, false, nil})
 		}
 	}
-	cases = append(cases, c13case{1, 1, sub(pow2(256), bigOne), false}, c13case{-1, 8, sub(pow2(256), bigOne), false}, c13case{1, 3, sub(pow2(256), bi(8)), false})
+	cases = append(cases, c13case{1, 1, sub(pow2(256), bigOne), false, nil}, c13case{-1, 8, sub(pow2(256), bigOne), false, nil}, c13case{1, 3, sub(pow2(256), bi(8)), false, nil})
 	for a := uint(0); a <= 20; a += 2 {
 		for b := int64(0); b < 6; b++ {
 			v := mul(pow2(2*a), bi(8*b+7)) // numbers that are NOT sums of three squares
-			cases = append(cases, c13case{1, 1, v, false}, c13case{-1, 2, v, false})
+			cases = append(cases, c13case{1, 1, v, false, nil}, c13case{-1, 2, v, false, nil})
 		}
 	}
 	for i := 0; i < r.Pick(150, 9000); i++ {
@@ -130,15 +132,32 @@ func runC13(r *mon.Run) {
 				v.Rsh(v, 2)
 			}
 		}
-		cases = append(cases, c13case{1 - 2*rng.IntN(2), uint(1 + rng.IntN(8)), v, false})
+		cases = append(cases, c13case{1 - 2*rng.IntN(2), uint(1 + rng.IntN(8)), v, false, nil})
 	}
 	// three squares: every table entry, both signs
-	for d := int64(0); d < 4096; d++ {
+	for d := int64(0); d <= 4096; d++ {
 		if !r.Thorough() && d > 64 && d < 4000 && d%3 != 0 {
 			continue
 		}
-		cases = append(cases, c13case{1, 1, bi(d), true}, c13case{-1, 1, bi(d), true})
+		cases = append(cases, c13case{1, 1, bi(d), true, nil}, c13case{-1, 1, bi(d), true, nil})
 	}
+	// tables of other sizes (the number of bits reserved for the roots is derived from the table size): every entry
+	limits := []int64{1, 2, 3, 4, 5, 15, 16, 17, 20, 63, 64, 65, 100, 255, 256, 300}
+	if r.Thorough() {
+		limits = append(limits, 1000, 1023, 1024, 1025, 2500, 16383, 16384, 20000)
+	}
+	for _, lim := range limits {
+		tb := rangeproof.GenerateSquaresTable(lim)
+		step := int64(1)
+		if lim > 3000 {
+			step = 37
+		}
+		for d := int64(0); d <= lim; d += step {
+			cases = append(cases, c13case{1 - 2*int(d%2), 1, bi(d), true, tb})
+		}
+		cases = append(cases, c13case{1, 1, bi(lim), true, tb}, c13case{-1, 1, bi(lim), true, tb})
+	}
+	r.Set("three_square_table_sizes", len(limits)+1)
 	r.Set("three_square_entries_exhaustive", r.Thorough())
 	seeds := make([]uint64, len(cases))
 	for i := range seeds {
@@ -203,6 +222,9 @@ func mkStatement(jr *rand.Rand, c c13case, table *rangeproof.SquaresTable) (*big
 	}
 	if c.three {
 		st.Splitter = table
+		if c.tbl != nil {
+			st.Splitter = c.tbl
+		}
 	}
 	return m, st
 }
